@@ -60,7 +60,7 @@ def check_C18(tier):
     res.add_failures(fails, "direct-client-gone")
     res.traces += summ["executions"]
     res.evaluations += summ["executions"]
-    fails, summ, _ = run_vh_parallel(vh, ["bridge", "--direct=connect", "--abandon-readend"], goned, n=4, timeout=2400, env=env)
+    fails, summ, _ = run_vh_parallel(vh, ["bridge", "--direct=connect", "--abandon-readend"], goned if thorough else goned[::2], n=4, timeout=2400, env=env)
     res.add_failures(fails, "direct-client-stops-reading")
     res.traces += summ["executions"]
     res.evaluations += summ["executions"]
